@@ -1,6 +1,6 @@
 """C06 — Sub, tuplets and chords: streams."""
 from ..core import Stream, hx, unhx
-from .. import mml
+from .. import mml, execstream
 
 RULE = ("blocks: programs dominated by Sub{}, tuplets {..}L / Div{..}L and chords '..'L with arbitrary core-language contents (any nesting of the three in "
         "one another and in loops, all length forms incl. default), each followed by a sentinel note; judged by Spec.Core.sem on the decoded notes "
@@ -77,4 +77,5 @@ def streams(tier, rng, P, only=None, cases=None):
         src = mml.pr(prog)
         return dict(req="run " + hx(src), src=src, show=src, sexp=mml.sexp(prog), blk=True, key=case.get("key", "") + "-shrunk")
     s1.ast_rebuild = rebuild
-    return [s for s in (s1,) if only in (None, s.name)]
+    sx = execstream.exec_stream(tier, rng, P, only, cases)
+    return [s for s in (s1, sx) if only in (None, s.name)]
